@@ -6,6 +6,7 @@ import (
 	"net/http"
 	"os"
 	"path/filepath"
+	"sync/atomic"
 	"time"
 
 	"github.com/johannesboyne/gofakes3"
@@ -61,6 +62,7 @@ type Stack struct {
 	Handler http.Handler
 	Clock   gofakes3.TimeSourceAdvancer
 
+	guard   *guardFs
 	dir     string // scratch directory owned by the stack ("" for pure in-memory)
 	boltDB  *bolt.DB
 	memFs   afero.Fs // MemMapFs for the *Mem fs kinds (survives Reopen)
@@ -103,7 +105,51 @@ func (s *Stack) wrap(fs afero.Fs) afero.Fs {
 	if s.Opts.WrapFs != nil {
 		return s.Opts.WrapFs(fs)
 	}
+	if _, ok := fs.(*afero.MemMapFs); ok {
+		// afero's MemMapFs can be driven into a state in which a directory lists itself;
+		// afero.Walk then recurses until the Go runtime kills the process. The guard turns
+		// that into an ordinary error so that the harness survives and reports it.
+		if s.guard == nil {
+			s.guard = &guardFs{}
+		}
+		return &guardedFs{Fs: fs, g: s.guard}
+	}
 	return fs
+}
+
+// guardFs counts directory opens per request.
+type guardFs struct{ n, tripped int64 }
+
+type guardedFs struct {
+	afero.Fs
+	g *guardFs
+}
+
+const guardLimit = 200000
+
+var errGuard = fmt.Errorf("verif guard: runaway file system recursion (more than %d opens in one request)", guardLimit)
+
+func (f *guardedFs) Open(name string) (afero.File, error) {
+	if atomic.AddInt64(&f.g.n, 1) > guardLimit {
+		atomic.StoreInt64(&f.g.tripped, 1)
+		return nil, errGuard
+	}
+	return f.Fs.Open(name)
+}
+
+// GuardReset is called by executors before each request.
+func (s *Stack) GuardReset() {
+	if s.guard != nil {
+		atomic.StoreInt64(&s.guard.n, 0)
+	}
+}
+
+// GuardTripped reports (and clears) whether the recursion guard fired.
+func (s *Stack) GuardTripped() bool {
+	if s.guard == nil {
+		return false
+	}
+	return atomic.SwapInt64(&s.guard.tripped, 0) == 1
 }
 
 func (s *Stack) open() error {
